@@ -167,6 +167,7 @@ fn variation_cases(tier: Tier) -> Vec<(String, Vec<(String, Vec<u8>)>, ArcLayout
     }
     let mut pairs: Vec<(String, String)> = vcore::collide::pairs().iter().map(|(_, a, b)| (a.clone(), b.clone())).collect();
     pairs.extend(vcore::sjis::suffix_pairs());
+    pairs.extend(vcore::sjis::case_pairs());
     for (i, (a, b)) in pairs.iter().enumerate() {
         if a.is_empty() || b.is_empty() {
             continue;
@@ -200,6 +201,15 @@ fn variation_cases(tier: Tier) -> Vec<(String, Vec<(String, Vec<u8>)>, ArcLayout
             let files: Vec<(String, Vec<u8>)> = vec![(a.clone(), body(0, 3)), (b.clone(), body(1, 4)), ("other".into(), body(2, 0))];
             for padded in [true, false] {
                 v.push((format!("tail-shared names #{}", i), files.clone(), lay(3, padded, i % 2 == 0), ArcTweak { tail_shared_text: true, label_records: (i % 3) as u8, ..Default::default() }));
+            }
+        }
+    }
+    // the index column is not constrained by the layout: sparse, descending from 0xFFFFFFFF, constant
+    for style in 1..=3u8 {
+        for n in 1..=4usize {
+            for padded in [true, false] {
+                let files: Vec<(String, Vec<u8>)> = (0..n).map(|i| (format!("f{}.bin", i), body(i, 3 + i))).collect();
+                v.push((format!("index column style {} with {} files", style, n), files, lay(n, padded, n % 2 == 0), ArcTweak { index_style: style, ..Default::default() }));
             }
         }
     }
